@@ -89,7 +89,7 @@ theorem parsePos_marshal {σ : Schema} {O : Oracles} {m : Msg}
     simpa [Schema.posVals] using this
 
 theorem ctorOpts_ok {σ : Schema} {O : Oracles} {m : Msg} (hres : σ.residual O m = true) :
-    ∀ ss : List OptStep, (∀ s ∈ ss, s ∈ σ.opts) → ctorOpts m ss = .ok () := by
+    ∀ ss : List OptStep, (∀ s ∈ ss, s ∈ σ.opts) → ctorOpts σ.ctorErr m ss = .ok () := by
   intro ss
   induction ss with
   | nil => intro _; rfl
@@ -101,8 +101,8 @@ theorem ctorOpts_ok {σ : Schema} {O : Oracles} {m : Msg} (hres : σ.residual O 
     simp only [ctorOpts, hs.2, if_true]
     exact ih (fun x hx => h x (List.mem_cons_of_mem _ hx))
 
-theorem ctorCross_ok {O : Oracles} {m : Msg} :
-    ∀ cs : List Cross, (∀ c ∈ cs, Cross.ok O m c = true) → ctorCross O m cs = .ok () := by
+theorem ctorCross_ok {O : Oracles} {m : Msg} (cls : ErrClass) :
+    ∀ cs : List Cross, (∀ c ∈ cs, Cross.ok O m c = true) → ctorCross cls O m cs = .ok () := by
   intro cs
   induction cs with
   | nil => intro _; rfl
